@@ -39,6 +39,14 @@ impl Node {
     }
 }
 
+/// Which handle `make_mut` is being applied to.
+#[derive(Clone, Copy, Debug)]
+pub enum CloneDst {
+    Prog(Id),
+    /// (object whose value stores the handle, slot id)
+    Slot(Id, Id),
+}
+
 /// Payload of the injected panic.
 pub struct Injected(pub u32);
 
@@ -72,7 +80,7 @@ pub struct ExecState {
     pub fired_scripts: u32,
     pub panic_in_call: bool,
     pub any_panic: bool,
-    pub pending_clone: Option<(Id, Id)>,
+    pub pending_clone: Option<(CloneDst, Id)>,
     pub clone_done: Option<Id>,
     pub c14: Option<(usize, usize, Id)>,
     pub record_dtors: bool,
@@ -480,7 +488,7 @@ impl Clone for Node {
     fn clone(&self) -> Node {
         har(|| {
             let src = self.id.get();
-            let (h, o2) = match x(|x| x.pending_clone.take()) {
+            let (dst, o2) = match x(|x| x.pending_clone.take()) {
                 Some(p) => p,
                 // the model predicted that make_mut would not clone (the handle is the
                 // only strong handle): the library disagrees about the count
@@ -511,7 +519,16 @@ impl Clone for Node {
             // From here on the library owns a new allocation holding `n`, and it is
             // about to release the old handle `h`.
             m(|m| {
-                m.ph.insert(h, o2);
+                match dst {
+                    CloneDst::Prog(h) => {
+                        m.ph.insert(h, o2);
+                    }
+                    CloneDst::Slot(oo, sid) => {
+                        if let Some(e) = m.obj_mut(oo).slots.iter_mut().find(|(s, _)| *s == sid) {
+                            e.1 = o2;
+                        }
+                    }
+                }
                 m.release_begin(src);
             });
             x(|x| x.clone_done = Some(o2));
@@ -916,7 +933,7 @@ fn exec_inner(op: &Op, dying: Option<&Node>) -> bool {
             if n != 1 {
                 // clone path: Node::clone will run, then the old handle is released
                 x(|x| {
-                    x.pending_clone = Some((h, o2));
+                    x.pending_clone = Some((CloneDst::Prog(h), o2));
                     x.clone_done = None;
                 });
                 struct CloneRelease;
@@ -986,6 +1003,119 @@ fn exec_inner(op: &Op, dying: Option<&Node>) -> bool {
                 w(|w| w.hs.insert(h, r));
                 st(St::op_makemut_unique, 1);
             }
+            true
+        }
+        Op::SlotMakeMut { owner, slot, o2 } => {
+            if w(|w| !w.hs.contains_key(&owner)) || m(|m| m.objs.contains_key(&o2)) {
+                return false;
+            }
+            let oo = m(|m| m.ph[&owner]);
+            // take the stored handle out of the vector for the duration of the call (the
+            // library only ever sees `&mut Rc`), put it back at the same position
+            let taken = w(|w| {
+                let o = w.hs.get(&owner).unwrap();
+                let pos = o.slots.borrow().iter().position(|s| s.id == slot)?;
+                Some((pos, o.slots.borrow_mut().remove(pos)))
+            });
+            let Some((pos, mut sl)) = taken else { return false };
+            let t = sl.target;
+            let (n, nw, epoch, old_addr) = m(|m| {
+                let ob = m.obj(t);
+                (m.phys(t), m.nweak(t, ob.epoch), ob.epoch, ob.addr)
+            });
+            mark_consuming(t);
+            let put_back = |sl: Slot| {
+                w(|w| {
+                    let o = w.hs.get(&owner).unwrap();
+                    let mut v = o.slots.borrow_mut();
+                    let p = pos.min(v.len());
+                    v.insert(p, sl);
+                })
+            };
+            if n != 1 {
+                // clone path: the owner will hold a handle to a new object; a program that
+                // keeps its bookkeeping straight removes the record of the old edge first
+                let must_unadopt = m(|m| *m.adopt.get(&(oo, t)).unwrap_or(&0) >= m.held(oo, t));
+                if must_unadopt {
+                    w(|w| {
+                        let o = w.hs.get(&owner).unwrap();
+                        sut(|| Rc::unadopt(o, &sl.h));
+                    });
+                    m(|m| {
+                        m.ledger_remove_one(oo, t);
+                    });
+                }
+                x(|x| {
+                    x.pending_clone = Some((CloneDst::Slot(oo, slot), o2));
+                    x.clone_done = None;
+                });
+                struct CloneRelease;
+                impl Drop for CloneRelease {
+                    fn drop(&mut self) {
+                        if x(|x| x.clone_done.is_some()) {
+                            m(|m| m.release_end());
+                        }
+                    }
+                }
+                let g = CloneRelease;
+                sut(|| {
+                    Rc::make_mut(&mut sl.h);
+                });
+                drop(g);
+                let done = x(|x| x.clone_done.take());
+                x(|x| x.pending_clone = None);
+                if done.is_none() {
+                    std::mem::forget(sl);
+                    violation("api-result", "make_mut-did-not-clone", &format!("make_mut on a stored handle to shared object {t} did not clone the value"));
+                }
+                let addr = verif::rcbox_addr(&sl.h);
+                let vp = Rc::as_ptr(&sl.h) as usize;
+                m(|m| {
+                    m.obj_mut(o2).addr = addr;
+                    m.addr_map.insert(addr, (o2, 0));
+                    m.recompute_p();
+                });
+                w(|w| {
+                    w.as_ptr.insert((o2, 0), vp);
+                });
+                sl.target = o2;
+                put_back(sl);
+                st(St::op_makemut_clone, 1);
+            } else if nw != 0 {
+                sut(|| {
+                    Rc::make_mut(&mut sl.h);
+                });
+                let addr = verif::rcbox_addr(&sl.h);
+                let vp = Rc::as_ptr(&sl.h) as usize;
+                if addr == old_addr {
+                    violation("api-result", "make_mut-did-not-move", &format!("make_mut on a stored handle to object {t} with outstanding Weak handles did not move the value"));
+                }
+                m(|m| {
+                    let ob = m.obj_mut(t);
+                    ob.epoch += 1;
+                    ob.addr = addr;
+                    ob.ever_recorded = false;
+                    ob.selfsame = 0;
+                    ob.had_table = false;
+                    let ne = ob.epoch;
+                    m.old_allocs.push(OldAlloc { addr: old_addr, obj: t, epoch });
+                    m.ledger_purge(t);
+                    m.addr_map.insert(addr, (t, ne));
+                    w(|w| w.as_ptr.insert((t, ne), vp));
+                });
+                put_back(sl);
+                st(St::op_makemut_steal, 1);
+            } else {
+                sut(|| {
+                    Rc::make_mut(&mut sl.h);
+                });
+                if verif::rcbox_addr(&sl.h) != old_addr {
+                    violation("api-result", "make_mut-moved-unique", &format!("make_mut on a stored handle to uniquely owned object {t} moved it"));
+                }
+                put_back(sl);
+                st(St::op_makemut_unique, 1);
+            }
+            st(St::op_slot_makemut, 1);
             true
         }
         Op::GetMut { h } => {
@@ -1295,6 +1425,11 @@ fn after_call(panicked: bool) {
         }
     });
 
+    if cfg!(miri) {
+        // under the interpreter only the library's own memory behaviour is of
+        // interest; the observation passes are left to the native runs
+        return;
+    }
     let any_panic = x(|x| x.any_panic);
     let destroyed_now: Vec<Id> = m(|m| {
         let mut v = m.destroyed_log[start..].to_vec();
